@@ -595,7 +595,14 @@ pub fn layouts(seed: u64, count: u64, outdir: &str, big: bool, ops_path: Option<
         let mut r = rng.fork();
         let max_entries = if big { 40 } else if r.chance(1, 3) { 26 } else { 14 };
         let tree = gen_tree(&mut r, max_entries, big);
-        let cfg = LayoutCfg { v4: r.chance(1, 2), wrap_to_zero: r.chance(1, 3), free_gaps: r.chance(2, 3), extra_dir_sector: r.chance(1, 4), spare_fat: r.chance(1, 4) };
+        let mut cfg = LayoutCfg { v4: r.chance(1, 2), wrap_to_zero: r.chance(1, 3), free_gaps: r.chance(2, 3), extra_dir_sector: r.chance(1, 4), spare_fat: r.chance(1, 4), min_fat: 0 };
+        // now and then a version-3 file whose DIFAT is exactly full (109 header slots + one DIFAT sector of 127): the
+        // file is then grown until the library appends a FAT sector, which needs a second DIFAT sector
+        let full_difat = !big && k % 23 == 7;
+        if full_difat {
+            cfg = LayoutCfg { v4: false, wrap_to_zero: false, free_gaps: cfg.free_gaps, extra_dir_sector: cfg.extra_dir_sector, spare_fat: false, min_fat: 236 };
+            *out.hist.entry("layout:full-difat-sector(236 FAT sectors)".to_string()).or_insert(0) += 1;
+        }
         let img = build(&tree, &cfg, &mut r);
         let path = format!("{}/L{}.cfb", outdir, k);
         std::fs::write(&path, &img).unwrap();
@@ -677,6 +684,7 @@ pub fn layouts(seed: u64, count: u64, outdir: &str, big: bool, ops_path: Option<
             let storages: Vec<String> = model.all_paths().into_iter().filter(|(p, s)| !*s && p != "/").map(|(p, _)| p).collect();
             let parent = if !storages.is_empty() && r.chance(1, 3) { r.pick(&storages).clone() } else { String::new() };
             let lines: Vec<String> = match r.below(12) {
+                _ if full_difat && step == 0 => vec![format!("put {} {}", enc("/grow"), hex(&pattern(70000 + r.below(3000) as usize, 41)))],
                 0..=3 => vec![format!("put {} {}", enc(&format!("{}/{}", parent, r.pick(&pool))), hex(&pattern(*r.pick(SIZES), step)))],
                 4 | 5 | 9 if !streams.is_empty() => vec![format!("rm {}", enc(&r.pick(&streams)[..]))],
                 6 => vec![format!("mkdir {}", enc(&format!("{}/{}", parent, r.pick(&pool))))],
